@@ -462,8 +462,11 @@ def best_ok(eng, o, *rest):
         return SV(ver.length == 0, "bool")
     if isinstance(b, SV) and b.t == "rid":
         isnone, rid = z3.BoolVal(False), b.e
-    else:
+    elif isinstance(b, LS.OptRid):
         isnone, rid = b.isnone, b.rid
+    else:
+        raise Unsupported("best_ok: the value of `best` (%s) is not a result identity the list specification tracks"
+                          % type(b).__name__)
     LS.register_rid(eng, rid)
     m = LS.lmin(eng, ver)
     return SV(z3.And((ver.length == 0) == isnone,
